@@ -74,6 +74,14 @@ impl SysSpec {
                 }
             }
         }
+        if self.name.contains("unnamed") {
+            // a system assembled through the public fields (`inputs`, `states`) instead of add_input / add_state, and
+            // what the btor2 reader leaves behind when it re-points a state: no entry in the name table for the
+            // symbols. The name table is no part of the semantics: nothing may depend on it for membership.
+            for s in inputs.iter().chain(states.iter()) {
+                sys.names[*s] = None;
+            }
+        }
         Built { sys, inputs, states }
     }
 
@@ -824,6 +832,23 @@ pub fn corner_extras() -> Vec<SysSpec> {
     }
     // a bad state that is at once a constraint root; a bad state that is a bare state symbol of width 1
     out.push(mk("X-rootshare", vec![("b1", 1)], vec![st("a1", 1, Some(l(1, 0)), Some(b(Bin::Or, e(), f())))], vec![e(), b(Bin::And, e(), f())], vec![T::not(b(Bin::And, e(), f()))]));
+    // a bad state that is the literal false (as written, or as left behind by simplification) in front of / between
+    // bad states that do fail: the indices of the failed properties must not shift
+    out.push(mk("X-falsebad", vec![("b1", 1)], vec![st("a2", 2, Some(l(2, 0)), Some(b(Bin::Add, a(), T::ZExt(1, Box::new(f())))))], vec![l(1, 0), b(Bin::Eq, a(), l(2, 2))], vec![]));
+    out.push(mk("X-falsebad", vec![], vec![st("a2", 2, Some(l(2, 0)), Some(inc(a())))], vec![b(Bin::Eq, a(), l(2, 3)), l(1, 0), b(Bin::Ugt, a(), l(2, 1))], vec![]));
+    out.push(mk("X-falsebad", vec![("b1", 1)], vec![st("a2", 2, Some(l(2, 0)), Some(inc(a())))], vec![b(Bin::And, f(), T::not(f())), l(1, 0), b(Bin::And, f(), b(Bin::Eq, a(), l(2, 1)))], vec![]));
+    // the same shapes without entries in the system's name table (see SysSpec::build)
+    let unnamed: Vec<SysSpec> = out
+        .iter()
+        .enumerate()
+        .filter(|(i, sp)| i % 3 == 0 && !sp.name.contains("labelled"))
+        .map(|(_, sp)| {
+            let mut c = sp.clone();
+            c.name = format!("{}-unnamed", sp.name);
+            c
+        })
+        .collect();
+    out.extend(unnamed);
     out
 }
 
